@@ -47,8 +47,21 @@ def main():
     # dimension laws up to identity, also after a new fundamental dimension has been defined (fresh process: define re-keys every dimension)
     dl = impl("dimlaws_worker.py", {"define": [["vf currency", "VFC"], ["vf flavour", "VFF"]]})
     for k, v in dl.items():
-        if k != "fails":
+        if k not in ("fails", "rekey"):
             for i in range(v): c.count(["dimlaw", k, i], nontrivial=True)
+    # the re-keying itself against Model/DimDefine.v: the table exported before each definition, pushed through [define], is the table exported after
+    rk = dl.get("rekey", [])
+    if rk:
+        cl_ = lambda keys: clist(clist(cZ(x) for x in k_) for k_ in keys)
+        txt_ = ("From Coq Require Import List ZArith. Import ListNotations.\nFrom Measured Require Import Model.DimDefine.\nLocal Open Scope Z_scope.\n"
+                + "".join(f"Definition before{i} : dstate := MkDS {r_['fundamental_before']}%nat {cl_(r_['keys_before'])}.\nDefinition after{i} : list (list Z) := {cl_(r_['keys_after'])}.\n" for i, r_ in enumerate(rk))
+                + "Lemma rekeyed_as_modelled : " + " /\\ ".join(f"dtable (define before{i}) = after{i}" for i in range(len(rk))) + ".\nProof. vm_compute. repeat split. Qed.\n")
+        ok_, log_ = c.run_coq({"Gen_rekey": txt_})["Gen_rekey"]
+        c.oblige(f"Gen_rekey.rekeyed_as_modelled (Dimension.define on the implementation = Model/DimDefine.define on the exported intern table, {len(rk)} definitions over {len(rk[0]['keys_before'])} known dimensions)", ok_, log_[-600:])
+        for i, r_ in enumerate(rk):
+            c.count(["rekey", i], nontrivial=True)
+            if not (r_["same_objects"] and r_["keys_are_exponents"]):
+                c.violation("rekey:objects", "Dimension.define replaced dimension objects or left a key that is not its object's exponents", {"definition": i, "observed": {k_: r_[k_] for k_ in ("same_objects", "keys_are_exponents")}})
     for f in dl["fails"][:40]:
         c.violation(f"dimension-law:{f[0].split('-')[0]}:{f[1]}", f"dimension law {f[1]} fails ({f[0]}): {f[2:]}", {"when": f[0], "law": f[1], "operands": f[2:],
                     "how": "harness/impl/dimlaws_worker.py: Dimension.define(name, symbol) in a fresh process, then the identities a*b is b*a, a/b is a*b**-1, ... on existing derived dimensions"})
